@@ -796,10 +796,13 @@ def sweep(impl_outs, spec_outs, trace, envs, widths, timeout, nthreads, max_iter
         for x, y in zip(impl_outs, spec_outs):
             if val(im[k], x) != val(sm[k], y):
                 return dict(status="differs", env=envs[k], seconds=time.time() - t0)
+    # equivalence classes of IR terms by simulation signature: EVERY IR term that carries the
+    # value (or the complement) of a spec trace point becomes a cut, so that a value the code
+    # computes twice (Keccak column parities) is abstracted consistently
     sig2impl = {}
     for t in T.topo(impl_outs):
         if t.op != "var":
-            sig2impl.setdefault(tuple(im[k][t.id] for k in range(n)), t)
+            sig2impl.setdefault((t.w, tuple(im[k][t.id] for k in range(n))), []).append(t)
     matches = []
     used_impl, used_spec = set(), set()
     nomatch = 0
@@ -808,17 +811,16 @@ def sweep(impl_outs, spec_outs, trace, envs, widths, timeout, nthreads, max_iter
             continue
         w = st.w
         sig = tuple(sm[k][st.id] for k in range(n))
-        it, neg = sig2impl.get(sig), False
-        if it is None:
-            it, neg = sig2impl.get(tuple(v ^ T.mask(w) for v in sig)), True
-        if it is None or it.w != w:
+        cands = [(it, False) for it in sig2impl.get((w, sig), [])] + \
+                [(it, True) for it in sig2impl.get((w, tuple(v ^ T.mask(w) for v in sig)), [])]
+        cands = [(it, neg) for it, neg in cands if it.id not in used_impl and it.id not in used_spec][:6]
+        if not cands:
             nomatch += 1
             continue
-        if it.id in used_impl or it.id in used_spec:
-            continue
         used_spec.add(st.id)
-        used_impl.add(it.id)
-        matches.append((lab, st, it, neg))
+        for j, (it, neg) in enumerate(cands):
+            used_impl.add(it.id)
+            matches.append(("%s#%d" % (lab, j), st, it, neg))
     cache = {}
     stats = dict(lemmas=len(matches), nomatch=nomatch, queries=0, solver_s=0.0, maxlemma=0.0, dropped=[],
                  syntactic=0)
@@ -828,8 +830,9 @@ def sweep(impl_outs, spec_outs, trace, envs, widths, timeout, nthreads, max_iter
     for iteration in range(max_iter):
         cutvar = {}
         for j, (lab, st, it, neg) in enumerate(live):
-            c = T.var("cut_%s" % lab, st.w)
-            cutvar[st.id] = c
+            c = cutvar.get(st.id)
+            if c is None:
+                c = cutvar[st.id] = T.var("cut_%s" % lab.split("#")[0], st.w)
             if it.id != st.id:
                 cutvar[it.id] = T._mk("xor", (c, T.mask(st.w)), st.w) if neg else c
         body, final = {}, {}
